@@ -392,7 +392,7 @@ def build_stages(pc2, g, sk, idx, hints, float_mode):
     return stages
 
 
-def solve_stages(stages, rlimit, timeout_ms, use_cvc5, cex_terms, deadline=None, confirm=False, fast=False):
+def solve_stages(stages, rlimit, timeout_ms, use_cvc5, cex_terms, deadline=None, confirm=False, fast=False, early_cand=False):
     """rounds of growing budget; first unsat wins. Only complete stages (qf when there is no full stage, full) give a
     definite counter-model; a qf model with an undecided full stage is a candidate ("sat-qf")."""
     t0 = time.time()
@@ -451,8 +451,12 @@ def solve_stages(stages, rlimit, timeout_ms, use_cvc5, cex_terms, deadline=None,
                     cand = mm
 
     z3_round(0.05)
-    if verdict == "unknown":
+    if verdict == "unknown" and not (early_cand and cand is not None):
         z3_round(0.3)  # many array/quantifier obligations need a little more than the first slice; cheaper than a cvc5 start
+    if early_cand and verdict == "unknown" and cand is not None:
+        # the path carries the tag of a RECORDED known finding (whose failing input is re-confirmed natively before it is reported as known):
+        # the candidate model is enough, the full budget is not spent on re-refuting a listed defect on every run
+        return {"verdict": "sat-qf", "backend": "z3/qf", "model": cand, "detail": detail, "secs": round(time.time() - t0, 3), "second": None}
     if fast and verdict == "unknown":
         # first pass over all sub-goals of an obligation: whatever is still open is rescheduled on its own with the full budget
         return {"verdict": "open", "backend": "", "model": None, "detail": detail, "secs": round(time.time() - t0, 3), "second": None}
